@@ -78,6 +78,10 @@ def site_obligations(prog: Program, res: Result, rule: str, need_bare: bool) -> 
             if s.kind == "insert":
                 res.ok(rule, fn.loc(s.node), fn.fq, text, "pure insertion: no definition is removed or renamed", trivial=True)
                 continue
+            if isinstance(s.node, ast.Yield) and isinstance(s.node.value, ast.Tuple) and isinstance(s.node.value.elts[1], ast.Call) \
+                    and (prog.dotted(s.node.value.elts[1].func) or "") in ("ast.Import", "ast.ImportFrom"):
+                res.ok(rule, fn.loc(s.node), fn.fq, text, "an import statement rebuilt with other names: which names it must keep for other files is decided by R8.6", trivial=True)
+                continue
             if s.kind == "delegate":
                 res.ok(rule, fn.loc(s.node), fn.fq, text, f"{s.why}; the callee is itself a consumer and is judged at its own sites", trivial=True)
                 continue
@@ -253,6 +257,42 @@ def _r8_6(prog: Program, res: Result) -> None:
                    + ": a name another file imports FROM this module (`from lib import join`, `lib.json`) is deleted here because this module does not use it itself")
     if n == 0:
         raise AnalysisError("R8.6: no rule deleting unused imports found")
+    # star imports: a rule that narrows `from m import *` to the names THIS module uses (or removes it) takes away every name the
+    # module only passes on; it must take `preserve`, count the preserved names among the wanted ones, and be called with it
+    m = 0
+    for fn in prog.funcs.values():
+        if not fn.is_fix:
+            continue
+        star = any(isinstance(c, ast.Call) and norm(c.func) == "ast.alias" and any(k.arg == "name" and isinstance(k.value, ast.Constant) and k.value.value == "*" for k in c.keywords)
+                   for c in walk_own(fn.node))
+        rebuilds = [y for y in walk_own(fn.node) if isinstance(y, ast.Yield) and isinstance(y.value, ast.Tuple) and len(y.value.elts) >= 2
+                    and ((isinstance(y.value.elts[1], ast.Call) and norm(y.value.elts[1].func) == "ast.ImportFrom") or (isinstance(y.value.elts[1], ast.Constant) and y.value.elts[1].value is None))]
+        if not star or not rebuilds:
+            continue
+        m += 1
+        has_param = "preserve" in fn.all_params
+        wanted = False
+        for lp in walk_own(fn.node):
+            if isinstance(lp, (ast.For, ast.AsyncFor)) and any(isinstance(c, ast.Call) and norm(c.func).endswith("trace_origin") for c in ast.walk(lp)):
+                texts = [norm(lp.iter)] + [norm(v) for x in ast.walk(lp.iter) if isinstance(x, ast.Name) for _s, v in bindings(fn).get(x.id, []) if v is not None]
+                wanted = wanted or any("preserve" in t for t in texts)
+        # ... and the chain it is part of is called with preserve
+        called_with = True
+        for host in prog.funcs.values():
+            for a in walk_own(host.node):
+                if isinstance(a, ast.Assign) and isinstance(a.value, ast.Call) and norm(a.value.func).endswith("chain") and fn.node.name in norm(a.value) and isinstance(a.targets[0], ast.Name):
+                    chain_name = a.targets[0].id
+                    for c in prog.calls_in(host):
+                        if isinstance(c.func, ast.Name) and c.func.id == chain_name:
+                            called_with = called_with and (len(c.args) > 1 or any(k.arg == "preserve" for k in c.keywords))
+        ok = has_param and wanted and called_with
+        res.decide(ok, "R8.6", fn.loc(), fn.fq, f"{fn.name} # narrows or removes star imports",
+                   "takes `preserve`, traces the preserved names as well, and is called with it" if ok else
+                   ("has no `preserve` parameter" if not has_param else "does not trace the preserved names" if not wanted else "its chain is called without `preserve`")
+                   + ": `from os.path import *` in a library becomes `from os.path import join` (what the library uses itself), and `from lib import basename` in a "
+                   "preserved client fails")
+    if m == 0:
+        res.undecided("R8.6", "pyrefact/tracing.py:0", "tracing", "rules that narrow star imports", "none found")
 
 
 def _magic_methods(prog: Program, res: Result) -> None:
@@ -488,6 +528,8 @@ def _producer(prog: Program, res: Result) -> None:
 from ..selftest import Variant  # noqa: E402
 
 VARIANTS = [
+    Variant("star-imports-narrowed-without-the-preserved-names", "FIRE", "tracing", "    for name in sorted(undefined_names | passed_on_names):", "    for name in sorted(undefined_names):", "R8.6"),
+    Variant("single-run-chain-called-without-preserve", "FIRE", "main", "    source = single_run_fixes(source, preserve=preserve)", "    source = single_run_fixes(source)", "R8.6"),
     Variant("keyword-names-not-recorded", "FIRE", "main", "    names.extend(node.arg for node in core.walk(ast_root, ast.keyword) if node.arg)\n", "", "R8.7"),
     Variant("class-pattern-keywords-not-recorded", "FIRE", "main", "            names.extend(node.kwd_attrs)\n", "            pass\n", "R8.7"),
     Variant("mangled-names-not-unmangled", "FIRE", "main", "            names.extend(\n                node.attr[match.start() :]\n                for match in re.finditer(r\"(?<=[^_])__(?=[^_])\", node.attr)\n                if node.attr.startswith(\"_\") and not node.attr.endswith(\"__\")\n            )\n", "", "R8.7"),
